@@ -27,4 +27,4 @@ Proof. vm_compute. repeat split. eexists. split; reflexivity. Qed.
 
 (* axioms the property theorems of this file depend on (one traversal for all of them) *)
 Definition C07_theorems := (@C07_reorder, @C07_repeat, @C07_respell, @C07_same_set, @C07_monotone).
-Print Assumptions C07_theorems.
+Redirect "assumptions/C07" Print Assumptions C07_theorems.
